@@ -37,6 +37,9 @@ def load_known(prop: str) -> Dict[str, dict]:
             if k.get("status") == "open" and prop in k.get("properties", [k["property"]])}
 
 
+LEAFHIST = {"quick": 600, "thorough": 20000}
+
+
 def collect_cases(src: str, dst: str, n: int, rng: random.Random, tag: str):
     """Distinct cases of src (TLC may print a case more than once), a seeded
     sample of n of them if there are more, with ids."""
@@ -56,6 +59,8 @@ def collect_cases(src: str, dst: str, n: int, rng: random.Random, tag: str):
         for i, line in enumerate(cases):
             c = json.loads(line)
             c["id"] = f"{tag}-{i}"
+            if c.get("kind") == "c17":
+                c["argshape"] = i % 3     # the container kind of CallPatch's `args` (an Iterable)
             out.write(json.dumps(c, separators=(",", ":")) + "\n")
     return len(cases), total
 
@@ -88,6 +93,21 @@ def run(prop: str, tier: str, replay: str = None) -> int:
             rep.extra["replayed_cases"] = n
             rep.exhaustive = (n == total)     # the whole enumerated space was replayed
             os.remove(allc)
+            if prop == "C16":
+                # histories of several RewritingContexts over one module (leafFunctions table)
+                lh = os.path.join(wd, "leafhist.ndjson")
+                lcfg = "LeafHist_q.cfg" if tier == "quick" else "LeafHist_t.cfg"
+                res = tlc.generate("LeafHist.tla", lcfg, "CASE", lh, workers=JOBS, timeout=1200)
+                res["ok"] = res["ok"] and res["distinct"] > 0 and not res["timed_out"]
+                rep.add_mc(lcfg, res)
+                picked = os.path.join(wd, "leafhist.cases.ndjson")
+                k, tot = collect_cases(lh, picked, LEAFHIST[tier], rng, prop + "-ctx")
+                rep.extra["context_histories"] = {"generated": tot, "replayed": k}
+                rep.extra["generated_cases"] += tot
+                rep.extra["replayed_cases"] += k
+                with open(cases, "a") as out, open(picked) as f:
+                    out.writelines(f)
+                os.remove(lh)
             if tier == "thorough" and "strict" in g:
                 strict_demo(rep, prop)
         shards = core.split_file(cases, JOBS, wd, "cases")
@@ -104,7 +124,10 @@ def run(prop: str, tier: str, replay: str = None) -> int:
                 "scratch count up to and beyond the end of the scratch pool, reads, leaf, spelling of "
                 "the register names; histories: ONE patch object at 2-3 sites of a single real "
                 "RewritingContext.apply() via insert_at / AllBlocksScope / AllFunctionsScope with "
-                "equal and mixed leaf-ness, every clause at every site)" if prop == "C16" else
+                "equal and mixed leaf-ness, every clause at every site; histories of 2-4 "
+                "RewritingContexts over one module (spec/LeafHist.tla: contexts given different "
+                "function lists, calls added to leaf functions, the patch judged at every site))"
+                if prop == "C16" else
                 "(ABI, argument list by count/kind/value class, calling convention, "
                 "constraint overrides, leaf; histories: ONE CallPatch object at 2-3 insertion sites, "
                 "directly and through a real RewritingContext, with context dependent callables)")
